@@ -109,9 +109,22 @@ func (e *Engine) doCall(st *State, in ssa.Instruction, c *ssa.CallCommon, k func
 		for _, a := range c.Args {
 			args = append(args, st.get(a))
 		}
+		bt := callTarget{name: b.Name(), args: args, sig: c.Signature()}
+		if st.fr.contract != nil && len(st.fr.contract.Hooks) > 0 {
+			e.runHooks(st, in, bt, false)
+			if st.dead {
+				return
+			}
+		}
 		r := e.builtin(st, in, b, args, c)
 		if st.dead {
 			return
+		}
+		if st.fr.contract != nil && len(st.fr.contract.Hooks) > 0 {
+			e.runHooksAfter(st, in, bt, r)
+			if st.dead {
+				return
+			}
 		}
 		k(st, r)
 		return
@@ -956,14 +969,14 @@ func (e *Engine) doAppend(st *State, in ssa.Instruction, s, t Val) Val {
 		}
 	}
 	newLen := st.named(Add(s.L[2], addLen))
-	st.assume(Le(newLen, I(1<<62)))
+	st.assume(Le(newLen, I(maxElemsOf(s.T)/4)))
 	inPlace := Le(newLen, s.L[3])
 	fresh := st.newRef()
 	arr := Ite(inPlace, s.L[0], fresh)
 	arr = st.named(arr)
 	off := Ite(inPlace, s.L[1], I(0))
 	capN := st.ctx.freshConst("appcap", SInt)
-	st.assume(And(Ge(capN, newLen), Le(capN, I(1<<62))))
+	st.assume(And(Ge(capN, newLen), Le(capN, I(maxElemsOf(s.T)/4))))
 	cp := Ite(inPlace, s.L[3], capN)
 	isEmpty := false
 	if n, ok := addLen.IntLit(); ok && n.Sign() == 0 {
